@@ -8,7 +8,7 @@
    Builds on proofs/RobustWalkProofs.v. *)
 From Coq Require Import ZArith List Bool Lia.
 From DG Require Import ProtoWireRef ProtoWireRefProofs ThriftWire ThriftWireProofs ThriftGeneric ThriftGenericProofs.
-From DG Require Import Json Num Base64 T2J T2JBytes CaseFormat ThriftDom.
+From DG Require Import Json Num Base64 T2J T2JUnset T2JBytes CaseFormat ThriftDom.
 From DG Require Import RobustWalkProofs.
 Import ListNotations.
 Local Open Scope Z_scope.
@@ -79,9 +79,9 @@ Section T2JSuffix.
     eapply rd_bytes_suffix; eassumption.
   Qed.
 
-  Lemma walk_key_suffix dk bs txt r : walk_key o dk bs = Some (txt, r) -> suffix_of r bs.
+  Lemma walk_key_t_suffix t bs txt r : walk_key_t o t bs = Some (txt, r) -> suffix_of r bs.
   Proof.
-    unfold walk_key, walk_key_t. generalize (desc_type dk). intros t.
+    unfold walk_key_t.
     destruct (t =? T_BYTE). { destruct (rd_int 1 bs) as [[z r1]|] eqn:E; [|discriminate]. intros H; inversion H; subst. eapply rd_int_suffix; eassumption. }
     destruct (t =? T_I16). { destruct (rd_int 2 bs) as [[z r1]|] eqn:E; [|discriminate]. intros H; inversion H; subst. eapply rd_int_suffix; eassumption. }
     destruct (t =? T_I32). { destruct (rd_int 4 bs) as [[z r1]|] eqn:E; [|discriminate]. intros H; inversion H; subst. eapply rd_int_suffix; eassumption. }
@@ -90,21 +90,62 @@ Section T2JSuffix.
     destruct (rd_bytes bs) as [[s r1]|] eqn:E; [|discriminate]. intros H; inversion H; subst. eapply rd_bytes_suffix; eassumption.
   Qed.
 
+  Lemma walk_key_suffix dk bs txt r : walk_key o dk bs = Some (txt, r) -> suffix_of r bs.
+  Proof. apply walk_key_t_suffix. Qed.
+
+  (* value mapping (api.js_conv) *)
+  Lemma walk_vm_scalar_suffix t bs txt r : walk_vm_scalar fd o t bs = Some (txt, r) -> suffix_of r bs.
+  Proof.
+    unfold walk_vm_scalar. destruct (t =? T_DOUBLE); [|apply walk_key_t_suffix].
+    destruct (rd_uint 8 bs) as [[z r1]|] eqn:E; [|discriminate]. destruct (f64_is_finite z); [|discriminate].
+    intros H; inversion H; subst. eapply rd_uint_suffix; eassumption.
+  Qed.
+
+  Lemma walk_vm_elems_suffix : forall n et c bs txt r, walk_vm_elems fd o n et c bs = Some (txt, r) -> suffix_of r bs.
+  Proof.
+    induction n as [|n IH]; intros et c bs txt r; cbn [walk_vm_elems].
+    - intros H; inversion H; subst. apply suffix_refl.
+    - destruct (walk_vm_scalar fd o et bs) as [[t1 r1]|] eqn:E1; [|discriminate]. apply walk_vm_scalar_suffix in E1.
+      destruct (walk_vm_elems fd o n et true r1) as [[tl r2]|] eqn:E2; [|discriminate]. apply IH in E2.
+      intros H; inversion H; subst. exact (suffix_trans _ _ _ E2 E1).
+  Qed.
+
+  Lemma walk_vm_suffix d bs txt r : walk_vm fd o d bs = Some (txt, r) -> suffix_of r bs.
+  Proof.
+    unfold walk_vm. destruct d as [t|b|fs|dk dv|s de]; try apply walk_vm_scalar_suffix.
+    destruct s; [apply walk_vm_scalar_suffix|].
+    destruct bs as [|et r0]; [discriminate|].
+    destruct (negb (valid_ttype et)); [discriminate|].
+    destruct (skip_count r0) as [[sz r2]|] eqn:Ec; [|discriminate]. apply skip_count_suffix in Ec.
+    destruct (sz >? zlen r2); [discriminate|].
+    destruct (walk_vm_elems fd o (Z.to_nat sz) et false r2) as [[t r3]|] eqn:E; [|discriminate]. apply walk_vm_elems_suffix in E.
+    intros H; inversion H; subst. apply suffix_cons. exact (suffix_trans _ _ _ E Ec).
+  Qed.
+
   Section LoopsSuffix.
     Variable rec : tdesc -> list Z -> option (list Z * list Z).
+    Variable bx : fmeta -> bool.
     Hypothesis rec_suf : forall d b t r, rec d b = Some (t, r) -> suffix_of r b.
 
     Lemma walk_fields_suffix : forall f fs c bm bs txt r,
-      walk_fields o rec f fs c bm bs = Some (txt, r) -> suffix_of r bs.
+      walk_fields fd o rec bx f fs c bm bs = Some (txt, r) -> suffix_of r bs.
     Proof.
       induction f as [|f IH]; intros fs c bm bs txt r; cbn [walk_fields]; [discriminate|].
       destruct bs as [|t r0]; [discriminate|].
       destruct (negb (valid_ttype t)); [discriminate|].
-      destruct (t =? 0). { destruct (bm_missing fs bm); [discriminate|]. intros H; inversion H; subst. apply suffix_cons, suffix_refl. }
+      destruct (t =? 0).
+      { destruct (walk_unsets fd o (sort_flds fs) bm c); [|discriminate]. intros H; inversion H; subst. apply suffix_cons, suffix_refl. }
       destruct (rd_int 2 r0) as [[id r2]|] eqn:E2; [|discriminate]. apply rd_int_suffix in E2.
       destruct (T2J.find_field fs id) as [fl|].
-      - destruct (rec (snd fl) r2) as [[t1 r3]|] eqn:E3; [|discriminate]. apply rec_suf in E3.
-        destruct (walk_fields o rec f fs true (bm_clear id bm) r3) as [[tl r4]|] eqn:E4; [|discriminate].
+      - destruct (bx (fst fl)).
+        { destruct (skip_go T_STRUCT r2) as [r3|] eqn:E3; [|discriminate]. apply skip_go_suffix_of in E3.
+          intros H. apply IH in H. apply suffix_cons. exact (suffix_trans _ _ _ H (suffix_trans _ _ _ E3 E2)). }
+        destruct (if o_value_mapping o && f_jsconv (fst fl) then walk_vm fd o (snd fl) r2 else rec (snd fl) r2)
+          as [[t1 r3]|] eqn:E3; [|discriminate].
+        assert (S3 : suffix_of r3 r2).
+        { destruct (o_value_mapping o && f_jsconv (fst fl)); [eapply walk_vm_suffix|eapply rec_suf]; eassumption. }
+        clear E3. rename S3 into E3.
+        destruct (walk_fields fd o rec bx f fs true (bm_clear id bm) r3) as [[tl r4]|] eqn:E4; [|discriminate].
         apply IH in E4. intros H; inversion H; subst.
         apply suffix_cons. eapply suffix_trans; [eassumption|]. eapply suffix_trans; eassumption.
       - destruct (o_disallow_unknown o); [discriminate|].
@@ -137,7 +178,7 @@ Section T2JSuffix.
   Proof.
     induction n as [|n IH]; intros d bs txt r; destruct d as [t|b|fs|dk dv|s de]; cbn [t2j_walk_gen];
       try discriminate; try apply walk_scalar_suffix; try apply walk_string_suffix.
-    - destruct (walk_fields o (t2j_walk_gen fd o n) (S (length bs)) fs false (bm_init fs) bs) as [[t r1]|] eqn:E; [|discriminate].
+    - destruct (walk_fields fd o (t2j_walk_gen fd o n) (fun _ => false) (S (length bs)) fs false (bm_init fs) bs) as [[t r1]|] eqn:E; [|discriminate].
       apply walk_fields_suffix in E; [|exact IH]. intros H; inversion H; subst. assumption.
     - destruct bs as [|kt [|vt r0]]; try discriminate.
       destruct (negb (valid_ttype kt && valid_ttype vt)); [discriminate|].
